@@ -16,7 +16,7 @@
     before/after oracle. *)
 From DV Require Import Model.Base Model.NameCheck Model.Parser Model.Header Model.Readers Model.Uncompress
   Model.Mutate Spec.PlainSpec Proofs.Hoare Proofs.HeaderBits Proofs.InsertLemmas Proofs.PlainWf Proofs.InsertFail Proofs.InsertSpec Proofs.HeaderInv Spec.RecordSpec Proofs.WalkSkip Proofs.ReplaceInv Proofs.Totality
-  Model.Renamer Proofs.FailAtomic.
+  Model.Renamer Proofs.FailAtomic Spec.NameSpec Proofs.RenameSpec Proofs.RenameContent.
 
 Theorem C10_insert_bound : forall sec rr s s',
   m_insert_rr sec rr s = (s', Ok tt) -> (N.of_nat (length (pp_packet (fst s'))) <= 8192)%N.
@@ -102,3 +102,22 @@ Print Assumptions C10_failed_rename_changes_nothing.
 Theorem C10_failed_recompute_changes_nothing : forall st st' e, m_recompute st = (st', Err e) -> st' = st.
 Proof. exact failed_recompute_changes_nothing. Qed.
 Print Assumptions C10_failed_recompute_changes_nothing.
+
+(** the whole-packet rename of a packet as the parser returned it, labels given: it succeeds, or it reports an error and object and
+    cursor are as they were; the consistency assertion on the EDNS summary (`assert_eq!` in parsed_packet.rs, Panic 795 of the
+    model) is never reached, because the renamed packet carries the same OPT record (C10_rename_keeps_edns_summary) *)
+Theorem C10_rename_keeps_edns_summary : forall p v sl tl sfx out f, bytes_ok p -> parse p = Ok v ->
+  Forall lab sl -> Forall lab tl -> sl <> [] -> tl <> [] -> bytes_ok (wire_of_labels tl) ->
+  length (wire_of_labels sl) <= 255 -> length (wire_of_labels tl) <= 255 ->
+  renamer_rename v (wire_of_labels tl) (wire_of_labels sl) sfx = Ok out -> parse out = Ok f ->
+  edns_summary_same v f = true.
+Proof. exact rename_summary_kept. Qed.
+Print Assumptions C10_rename_keeps_edns_summary.
+
+Theorem C10_rename_total : forall p v it sl tl sfx, bytes_ok p -> parse p = Ok v ->
+  Forall lab sl -> Forall lab tl -> sl <> [] -> tl <> [] -> bytes_ok (wire_of_labels tl) ->
+  length (wire_of_labels sl) <= 255 -> length (wire_of_labels tl) <= 255 ->
+  (exists s', m_rename (wire_of_labels tl) (wire_of_labels sl) sfx (v, it) = (s', Ok tt)) \/
+  (exists e, m_rename (wire_of_labels tl) (wire_of_labels sl) sfx (v, it) = ((v, it), Err e)).
+Proof. exact rename_total. Qed.
+Print Assumptions C10_rename_total.
